@@ -236,6 +236,46 @@ def check_one(case):
                 out.viol('wrong-keys', '%s (f with own defaults): result keys %s, expected %s' % (label, list(fresh['k']), surviving), missing=True, extra=False, order_only=False, **sig)
         except Exception as e:
             out.viol('perdictable-raised', '%s: calling one lifted function twice (first without the defaulted inputs) raised %s: %s' % (label, type(e).__name__, e), exc=type(e).__name__, twice=True, **sig)
+    # ---------------- no table at all, but a value that is a list / tuple / range / empty list: it is a VALUE (f gets it whole, once), not a column
+    if data is None and not tabs and not dfl:
+        for vname, v in (('[5]', [5]), ('[]', []), ('[1, 2, 3]', [1, 2, 3]), ("('T',)", ('T',)), ('range(2)', range(2))):
+            for onv in ('k', None):
+                out.sub()
+                calls[:] = []
+                kw3 = dict(inputs())
+                kw3[names[0]] = v
+                try:
+                    r3 = perdictable(f, on=onv)(**kw3)
+                    out.call()
+                    want3 = 'f(%s)' % ','.join([str(v)] + ['%s:*' % n for n in names[1:]] + ['None'] * (4 - len(names)))
+                    if r3 != want3 or len(calls) != 1:
+                        out.viol('scalar-call-wrong', 'perdictable(f, on=%r)(%s=%s, other inputs scalars): expected f(...) = %r evaluated once, got %r with %d calls' % (
+                            onv, names[0], vname, want3, r3, len(calls)), listvalue=True, **sig)
+                except Exception as e:
+                    out.viol('perdictable-raised', 'perdictable(f, on=%r)(%s=%s, other inputs scalars) raised %s: %s' % (onv, names[0], vname, type(e).__name__, e),
+                             exc=type(e).__name__, listvalue=True, **sig)
+    # ---------------- an EXPLICIT empty defaults={} on a function that has Python defaults of its own: nothing is outer-joined
+    if data is None and len(tabs) >= 2:
+        out.sub()
+        last = [n for n in names if n in tabs][-1]
+        src4 = 'def g(%s):\n    return _f(%s)\n' % (', '.join(n if n != last else "%s='%s:own'" % (n, n) for n in sorted(names, key=lambda n: n == last)),
+                                                  ', '.join('%s=%s' % (n, n) for n in names))
+        ns4 = {'_f': f2}
+        exec(src4, ns4)
+        s0 = set(keys)
+        for n in tabs:
+            s0 &= tabs[n]
+        inner = [k for k in sorted(keys) if k in s0]
+        calls[:] = []
+        try:
+            r4 = perdictable(ns4['g'], on='k', defaults={})(**inputs())
+            out.call()
+            got4 = list(r4['k']) if isinstance(r4, dictable) and len(r4) else []
+            if got4 != inner:
+                out.viol('wrong-keys', "%s: perdictable(g, on='k', defaults={}) where g has the Python default %s='..': result keys %s, expected the inner join %s (no input is named in defaults)" % (
+                    label, last, got4, inner), missing=bool(set(inner) - set(got4)), extra=bool(set(got4) - set(inner)), order_only=sorted(got4) == sorted(inner), **sig)
+        except Exception as e:
+            out.viol('perdictable-raised', "%s: perdictable(g, on='k', defaults={}) raised %s: %s" % (label, type(e).__name__, e), exc=type(e).__name__, emptydefaults=True, **sig)
     # ---------------- join() directly
     if data is None and tabs:
         out.sub()
